@@ -83,17 +83,17 @@ Record wst := mkw { w_log : list event; w_relview : nat; w_pc : wpc; w_att : nat
 Definition w_push (w : wst) (l : loc) (v : Z) (o : ord) (k : gkind) (att : nat) : list event :=
   w_log w ++ [mkev l v (if is_rel o then S (length (w_log w)) else w_relview w) att k].
 
-(* one access of write(r); returns the new state and what the shim would report *)
-Definition w_step (c : cfg) (w : wst) (r : list Z) : wst * option titem :=
+(* one access of write(r); returns the new state and what the shim would report.
+   [k] is ghost: the number of this write() call (1, 2, ...), recorded in the events it stores. *)
+Definition w_step (c : cfg) (w : wst) (r : list Z) (k : nat) : wst * option titem :=
   match w_pc w with
   | WIdle =>
       let g := latest_val LGen (w_log w) in
-      (mkw (w_log w) (w_relview w) (WLoaded g) (w_att w) r, Some (mkti ALoad LGen (c_w_load c) g))
+      (mkw (w_log w) (w_relview w) (WLoaded g) k r, Some (mkti ALoad LGen (c_w_load c) g))
   | WLoaded g =>
       let p := pre g in
-      let a := S (w_att w) in
-      (mkw (w_push w LGen p (c_w_odd c) KOdd a) (w_relview w)
-           (match c_w_fence c with Some _ => WOddDone p | None => WCopy p (c_w_order c) end) a (w_rec w),
+      (mkw (w_push w LGen p (c_w_odd c) KOdd (w_att w)) (w_relview w)
+           (match c_w_fence c with Some _ => WOddDone p | None => WCopy p (c_w_order c) end) (w_att w) (w_rec w),
        Some (mkti AStore LGen (c_w_odd c) p))
   | WOddDone p =>
       match c_w_fence c with
@@ -298,7 +298,7 @@ Definition m_step (m : mstate) (t : token) : mstate * list obs :=
   | TW =>
       let starting := match w_pc (m_w m) with WIdle => true | _ => false end in
       let k := if starting then S (m_nrec m) else m_nrec m in
-      match w_step c (m_w m) (rec_of (c_cells c) k) with
+      match w_step c (m_w m) (rec_of (c_cells c) k) k with
       | (w', Some it) => (mkm w' (m_rs m) k c, [OAccess 0 it])
       | (w', None) => (m, [OSkip])
       end
